@@ -770,6 +770,20 @@ def hostRunSegs (entry : Entry) (p : Payload) (s0 : Seg) (ss : List Seg) : Out :
 def hostRun (entry : Entry) (chain : List Frame) (p : Payload) : Out :=
   hostRunSegs entry p (splitSegs (indexed 0 chain)).1 (splitSegs (indexed 0 chain)).2
 
+/-- The host enters through Runtime.Try: `ex := r.Try(func() { obj.Get("x") })` on an accessor whose getter is the
+head of the chain.  Runtime.Try (runtime.go) is vm.try plus a deferred recover that RE-PANICS everything that is not a
+JS exception (uncatchable errors too), and it never calls `leave()`: pending promise jobs stay queued. -/
+def hostRunTry (chain : List Frame) (p : Payload) : Out :=
+  ⟨match vmTry (invoke (headIsJS (splitSegs (indexed 0 chain)).1 (segInner p (splitSegs (indexed 0 chain)).2.isEmpty).2)
+      (evalSeg (splitSegs (indexed 0 chain)).1 (segInner p (splitSegs (indexed 0 chain)).2.isEmpty).1
+        (segInner p (splitSegs (indexed 0 chain)).2.isEmpty).2).1) with
+    | .ok => .ok
+    | .ex e => .err (.exc e)
+    | .panic x _ => .panic x,
+   [],
+   (evalSeg (splitSegs (indexed 0 chain)).1 (segInner p (splitSegs (indexed 0 chain)).2.isEmpty).1
+      (segInner p (splitSegs (indexed 0 chain)).2.isEmpty).2).2⟩
+
 /-! ## What the host can ask of the error it got -/
 
 /-- errors.Is(hostErr, target). -/
